@@ -163,7 +163,7 @@ public:
 		return *this;
 	}
 	constexpr value<fbits>& operator=(unsigned long rhs) {
-		*this = static_cast<long long>(rhs);
+		*this = static_cast<unsigned long long>(rhs); // a signed cast would make values >= 2^63 negative
 		return *this;
 	}
 	constexpr value<fbits>& operator=(unsigned long long rhs) {
